@@ -62,6 +62,15 @@ CLAIMED = {
          "only when a distance is negative, increments = (r_1, positive differences) or rejection exactly when the radii are not strictly "
          "increasing positive, R_k midpoints, R_T, R_1 = 2 r_1, interleaving, include_zero, and the md5 argument is the returned array itself.",
          "§5 C16"),
+ "C07": ("Claimed for the double-cover logic only. For ALL quaternion coordinates (each 0 or |x|>1e-5): q_in_upper_sphere = 'first non-zero "
+         "coordinate positive', exactly one of q and -q is canonical; hemisphere_quaternion_set returns, row by row, the representative in the "
+         "requested half (N<=2, thorough 3); the real SphereGrid4Dim._gen_grid / gen_grid on an arbitrary canonical unit half grid G (N<=4) yields "
+         "[G; -G] in order, only_upper returns exactly G, upper indices 0..N-1, and a row whose length is off 1 is rejected by the norm assertion. "
+         "That the concrete generators produce N distinct, well-separated points is a concrete run with nothing to quantify over: outside.", "§5 C07"),
+ "C09": ("For n_b,n_o,n_t in 1..3 (thorough 4) with symbolic direction coordinates, quaternions and radii: the array has n_t*n_o*n_b rows of 7; for a "
+         "SYMBOLIC row index n the row equals (r_{(n div n_b) div n_o} * o_{(n div n_b) mod n_o}, q_{n mod n_b}); the position array likewise; the "
+         "index helpers equal n div n_b / n mod n_b for symbolic n and for index arrays (each single index, reversed, seeded subset with repeats). "
+         "The decomposition back into o/b/t grids (np.unique on rounded float rows) is outside.", "§5 C09"),
 }
 NA = {
  "C03": "Claim is that Qhull's SphericalVoronoi regions/areas are the true nearest-neighbour cells: compiled geometry with no encodable source; a stub would assume the property (the symmetric assembly around it is verified under C04).",
